@@ -21,18 +21,21 @@ from vlib.core import Machinery, REPO
 
 LEVEL = "model_checking"
 
-DEVIATIONS = {   # deviation -> (constants override, what must be violated)
-    "stop_no_wait": (dict(), None),
-    "wg_add_in_handler": (dict(), None),
-    "drop_buffer_on_shutdown": (dict(), None),
-    "timeout_not_rearmed": (dict(ReadTimeout=True), None),
-    "accept_exit_on_error": (dict(MaxFaults=1), None),
-    "no_conn_close": (dict(), "live"),
-    "close_snapshot": (dict(), "live"),
-    "serial_handler": (dict(), "live"),
+ONE = "={c1}"
+NONE = "={}"
+DEVIATIONS = {   # deviation -> (cfg, constants): small configurations in which TLC must reject it
+    "stop_no_wait": ("Listener_mc.cfg", dict(ScriptNames={"burst", "half"})),
+    "wg_add_in_handler": ("Listener_mc.cfg", dict(ScriptNames={"burst", "half"})),
+    "drop_buffer_on_shutdown": ("Listener_mc.cfg", dict(ScriptNames={"burst", "half"})),
+    "timeout_not_rearmed": ("Listener_mc.cfg", dict(ScriptNames={"burst", "half"}, ReadTimeout=True)),
+    "accept_exit_on_error": ("Listener_mc.cfg", dict(Conns=ONE, ScriptNames={"close1"}, MaxFaults=1)),
+    "no_conn_close": ("Listener_live.cfg", dict(Conns=ONE, ScriptNames={"half"})),
+    "close_snapshot": ("Listener_live.cfg", dict(Conns=ONE, ScriptNames={"half"})),
+    "serial_handler": ("Listener_live.cfg", dict(ScriptNames={"silent"})),
 }
 QUICK_DEVS = ["stop_no_wait", "accept_exit_on_error", "close_snapshot", "drop_buffer_on_shutdown"]
 
+RT_MS = 25      # the read timeout of the scenarios that have one (the waits are 30 s = 1200 x)
 ALL_SCRIPTS = ["close1", "close2", "burst", "idle1", "half", "halfclose", "split", "crhalf", "silent"]
 
 
@@ -60,14 +63,15 @@ def model_check(ctx):
         ctx.note("model checking skipped (VERIF_DEV_SKIP_MC)")
         return
     W = 6
-    # safety, both protocols where no accept error can happen; repaired with faults
     if q:
         ctx.tlc("Listener", "Listener_mc.cfg", workers=W, timeout=900, tag="mc_tcp",
-                consts=base_consts(ScriptNames={"burst", "half", "close1"}, ReadTimeout=True, MaxFaults=1, MaxListenFail=1))
+                consts=base_consts(ScriptNames={"burst", "half"}, ReadTimeout=True))
+        ctx.tlc("Listener", "Listener_mc.cfg", workers=W, timeout=900, tag="mc_fault",
+                consts=base_consts(Conns=ONE, ScriptNames={"burst", "half", "silent"}, ReadTimeout=True, MaxFaults=1, MaxListenFail=1))
         ctx.tlc("Listener", "Listener_mc.cfg", workers=W, timeout=900, tag="mc_udp",
-                consts=base_consts(Conns="={c1}", ScriptNames={"close1"}, UdpOn=True, MaxUFaults=1, MaxDgram=2))
+                consts=base_consts(Conns=NONE, TcpOn=False, UdpOn=True, MaxUFaults=1, MaxDgram=2))
         ctx.tlc("Listener", "Listener_live.cfg", workers=W, timeout=900, tag="live_tcp",
-                consts=base_consts(Conns="={c1}", ScriptNames={"close2", "half", "silent"}, MaxFaults=1, MaxListenFail=1))
+                consts=base_consts(Conns=ONE, ScriptNames={"close1", "half"}, MaxFaults=1, MaxListenFail=1))
     else:
         for rt in (False, True):
             ctx.tlc("Listener", "Listener_mc.cfg", workers=W, timeout=3000, tag="mc_tcp_rt%d" % rt,
@@ -77,41 +81,41 @@ def model_check(ctx):
                 consts=base_consts(ScriptNames=set(ALL_SCRIPTS), Protocol="pinned", ReadTimeout=True))
         ctx.tlc("Listener", "Listener_mc.cfg", workers=W, timeout=3000, tag="mc_3conns",
                 consts=base_consts(Conns="={c1, c2, c3}", ScriptNames={"close1", "half"}))
-        ctx.tlc("Listener", "Listener_mc.cfg", workers=W, timeout=3000, tag="mc_udp",
-                consts=base_consts(Conns="={c1}", ScriptNames={"close1", "half"}, UdpOn=True, MaxUFaults=1, MaxFaults=1, MaxDgram=2))
+        ctx.tlc("Listener", "Listener_mc.cfg", workers=W, timeout=3000, tag="mc_tcp_udp",
+                consts=base_consts(Conns=ONE, ScriptNames={"close1", "half"}, UdpOn=True, MaxUFaults=1, MaxFaults=1, MaxDgram=2))
         for rt in (False, True):
             ctx.tlc("Listener", "Listener_live.cfg", workers=W, timeout=3000, tag="live_tcp_rt%d" % rt,
-                    consts=base_consts(Conns="={c1}", ScriptNames=set(ALL_SCRIPTS), ReadTimeout=rt, MaxFaults=1, MaxListenFail=1))
+                    consts=base_consts(Conns=ONE, ScriptNames=set(ALL_SCRIPTS), ReadTimeout=rt, MaxFaults=1, MaxListenFail=1))
         ctx.tlc("Listener", "Listener_live.cfg", workers=W, timeout=3000, tag="live_2conns",
                 consts=base_consts(ScriptNames={"close1", "silent"}))
-        ctx.tlc("Listener", "Listener_live.cfg", workers=W, timeout=3000, tag="live_udp",
-                consts=base_consts(Conns="={c1}", ScriptNames={"close1"}, UdpOn=True, MaxUFaults=1, MaxDgram=1))
-    # named deviations: each must be rejected
-    rejected = {}
-    for dev in (QUICK_DEVS if q else sorted(DEVIATIONS)):
-        over, kind = DEVIATIONS[dev]
-        c = base_consts(ScriptNames={"burst", "half", "silent"}, Dev=dev, **over)
-        if dev == "serial_handler":
-            c["ScriptNames"] = {"close1", "silent"}
-        r = ctx.tlc("Listener", "Listener_live.cfg" if kind == "live" else "Listener_mc.cfg", workers=W, timeout=900,
-                    consts=c, expect_ok=False, count=False, tag="dev_" + dev)
+        ctx.tlc("Listener", "Listener_liveu.cfg", workers=W, timeout=3000, tag="live_udp",
+                consts=base_consts(Conns=NONE, TcpOn=False, UdpOn=True, MaxUFaults=2, MaxDgram=2))
+    # named deviations: each must be rejected; and the code as it is ("pinned") with one accept / read error
+    # possible: TLC finds that Stop does not terminate.  Small runs, three at a time with two workers each.
+    from concurrent.futures import ThreadPoolExecutor
+    jobs = [("dev_" + dev,) + DEVIATIONS[dev] + (dev,) for dev in (QUICK_DEVS if q else sorted(DEVIATIONS))]
+    jobs.append(("pinned_fault_tcp", "Listener_live.cfg", dict(Conns=ONE, ScriptNames={"close1"}, Protocol="pinned", MaxFaults=1), ""))
+    jobs.append(("pinned_fault_udp", "Listener_liveu.cfg", dict(Conns=NONE, TcpOn=False, UdpOn=True, Protocol="pinned", MaxUFaults=1,
+                                                                 MaxDgram=1), ""))
+    ctx.specdir()
+
+    def one(job):
+        tag, cfg, over, dev = job
+        r = ctx.tlc("Listener", cfg, workers=2, timeout=900, consts=base_consts(Dev=dev, **over), expect_ok=False,
+                    count=False, tag=tag)
         what = r["violated"]
         if what in (None, "temporal"):
             m = re.search(r"Temporal property (\S+) was violated", r["text"])
-            what = m.group(1) if m else what
-        if r["ok"] or not what or r["timeout"]:
-            raise Machinery("deviation %s of Listener.tla is not rejected by TLC (vacuous model check); log %s" % (dev, r["log"]))
-        rejected[dev] = what
-    ctx.cov["spec_deviations_rejected"] = rejected
-    # the code as it is, with one accept error possible: TLC must find that Stop does not terminate
-    for side, c in (("tcp", base_consts(Conns="={c1}", ScriptNames={"close1"}, Protocol="pinned", MaxFaults=1)),
-                    ("udp", base_consts(Conns="={c1}", ScriptNames={"close1"}, Protocol="pinned", UdpOn=True, MaxUFaults=1, MaxDgram=1))):
-        r = ctx.tlc("Listener", "Listener_live.cfg", workers=W, timeout=900, consts=c, expect_ok=False, count=False,
-                    tag="pinned_fault_" + side)
-        m = re.search(r"Temporal property (\S+) was violated", r["text"])
-        ctx.cov.setdefault("pinned_protocol_model_result", {})[side] = m.group(1) if m else ("accepted" if r["ok"] else "?")
-        if not r["ok"] and not m:
-            raise Machinery("pinned-protocol run gave no verdict; log %s" % r["log"])
+            what = m.group(1) if m else None
+        return tag, (None if r["ok"] or r["timeout"] else what), r["log"]
+    with ThreadPoolExecutor(max_workers=3) as ex:
+        res = list(ex.map(one, jobs))
+    for tag, what, logf in res:
+        if not what:
+            raise Machinery("%s is not rejected by TLC (%s); log %s" % (
+                tag, "vacuous model check" if tag.startswith("dev_") else "the model no longer reproduces the known finding FX1", logf))
+    ctx.cov["spec_deviations_rejected"] = {t[4:]: w for t, w, _ in res if t.startswith("dev_")}
+    ctx.cov["pinned_protocol_with_fault_rejected"] = {t[-3:]: w for t, w, _ in res if t.startswith("pinned_")}
 
 
 # ------------------------------------------------------------------ 2. scenarios
@@ -156,7 +160,7 @@ def build_scenarios(ctx, shapes, scripts, rng, n, forced):
         sid = i + 1
         f = forced[i] if i < len(forced) else {}
         fault = f.get("fault", rng.choice(["none"] * 6))
-        rt_ms = f.get("rt_ms", rng.choice([0, 0, 40]))
+        rt_ms = f.get("rt_ms", rng.choice([0, 0, RT_MS]))
         clients, conc = [], []
 
         def add(name, phase):
@@ -204,6 +208,7 @@ def build_scenarios(ctx, shapes, scripts, rng, n, forced):
                           wcut=[k["wcut"] for k in conc],
                           must_pre=[c["c"] for c in clients if c["phase"] == "pre" and c["end"] == "close"],
                           must_post=[c["c"] for c in clients if c["phase"] == "post" and c["end"] == "close"],
+                          idle_pre=[c["c"] for c in clients if c["phase"] == "pre" and c["end"] == "idle"],
                           dsym=[k["sym"] for k in dconc], dfrag=[k["frag"] for k in dconc], dgrp=[d["g"] for d in dg],
                           gmust_pre=sorted(set(d["g"] for d in dg if d["phase"] == "pre")), gmust_post=gpost)
     return scs, hists
@@ -275,6 +280,9 @@ def classify(block, idx):
         return "read-timeout-%s" % ("without-timeout-configured" if not h["rt_us"] else "before-the-deadline")
     if ev == "rd" and r["err"] == "closed":
         return "connection-closed-by-relay-before-stop"
+    if ev == "barrier" and not any(x["ev"] == "sclosed" and x["c"] == c for c in h["idle_pre"] for x in block[:idx]) \
+            and h["rt_us"] and h["idle_pre"] and r["phase"] == "pre":
+        return "idle-connection-not-closed-by-read-timeout"
     if ev == "barrier":
         return "not-served phase=%s%s" % (r["phase"], " after-%s-fault" % h["fault"] if r["phase"] == "post" else "")
     if ev == "cconn":
@@ -284,7 +292,7 @@ def classify(block, idx):
     return "event-rejected ev=%s" % ev
 
 
-def validate(ctx, blocks, report=True, tag="tr"):
+def validate(ctx, blocks, tag="tr", own_dir=None):
     """returns (number accepted, list of (block, idx) rejected)"""
     blocks = list(blocks)
     rej = []
@@ -292,9 +300,9 @@ def validate(ctx, blocks, report=True, tag="tr"):
         flat = [r for b in blocks for r in b]
         if not flat:
             break
-        f = ctx.write_ndjson("xl_trace.ndjson", flat)
+        f = ctx.write_ndjson("xl_trace_%s.ndjson" % tag, flat)
         ok, matched, res = ctx.validate_traces("ListenerTrace", "ListenerTrace.cfg", f, len(flat), len(blocks),
-                                               tag="%s%d" % (tag, rnd), timeout=1800)
+                                               tag="%s%d" % (tag, rnd), timeout=1800, own_dir=own_dir)
         if ok:
             break
         if res["violated"] == "RunInv":
@@ -329,9 +337,9 @@ def run(ctx):
     for sh in shapes2:
         for nm, s in zip(sh["names"], sh["scripts"]):
             scripts[nm] = s
-    forced = [dict(fault="tcp", block=False, rt_ms=0), dict(fault="none", rt_ms=40), dict(fault="none", rt_ms=0)]
+    forced = [dict(fault="tcp", block=False, rt_ms=0), dict(fault="none", rt_ms=RT_MS), dict(fault="none", rt_ms=0)]
     if not q:
-        forced += [dict(fault="udp", block=False), dict(fault="both", block=True), dict(fault="tcp", block=True, rt_ms=40),
+        forced += [dict(fault="udp", block=False), dict(fault="both", block=True), dict(fault="tcp", block=True, rt_ms=RT_MS),
                    dict(fault="udp", block=True), dict(fault="tcp", block=True)]
     n = ctx.pick(60, 600)
     scs, hists = build_scenarios(ctx, shapes, scripts, rng, n, forced)
@@ -392,7 +400,7 @@ def run(ctx):
         raise Machinery("vacuous run: %s" % json.dumps(cov["events"]))
     cov["rule"] = ("evaluations = recorded events of the real listener decided by TLC (ListenerTrace); scenarios = TLC-generated "
                    "assignments of client scripts (%d scripts) to 2%s connections + seeded post-fault / racing / late clients, "
-                   "datagrams, read timeout 0 / 40 ms, fault none / tcp / udp / both (accept or read error injected by closing "
+                   "datagrams, read timeout 0 / 25 ms, fault none / tcp / udp / both (accept or read error injected by closing "
                    "the socket under the loop), Stop moment; distinct_nontrivial = distinct (scripts+phases, read timeout, fault) "
                    "with at least one dispatch" % (len(names), "" if q else "..3"))
     ex = next((b for b in good if any(r["ev"] == "rd" and r["err"] == "closed" and r["nb"] == 0 for r in b)), good[0])
@@ -414,47 +422,59 @@ def run(ctx):
 
 
 def selftest(ctx, good):
-    def expect_reject(name, b2, at):
-        nacc, rej = validate(ctx, [b2], tag="self_" + name)
-        if not rej or rej[0][1] > at:
-            raise Machinery("binding self-test %s: corrupted scenario accepted (or rejected later than line %d)" % (name, at))
-    # (a) a dispatched line removed: the handler returns with a received line undispatched
-    for b in good:
-        i = next((i for i, r in enumerate(b) if r["ev"] == "disp"), None)
-        j = next((j for j, r in enumerate(b) if r["ev"] in ("hret", "uret") and i is not None and j > i), None)
-        if i is not None and j is not None:
-            expect_reject("drop", b[:i] + b[i + 1:], j - 1)
-            # (b) the same line dispatched twice
-            expect_reject("dup", b[:i + 1] + [b[i]] + b[i + 1:], i + 1)
+    """corrupted copies of accepted scenarios must be rejected by TLC, at (or before) the corrupted line"""
+    from concurrent.futures import ThreadPoolExecutor
+    jobs = []        # (name, corrupted scenario, latest line at which it must be rejected)
+
+    def first(b, p, start=0):
+        return next((i for i in range(start, len(b)) if p(b[i])), None)
+    for b in good:      # a dispatched line removed / duplicated
+        i = first(b, lambda r: r["ev"] == "disp")
+        j = first(b, lambda r: r["ev"] in ("hret", "uret"), i) if i is not None else None
+        if j is not None:
+            jobs.append(("drop", b[:i] + b[i + 1:], j - 1))
+            jobs.append(("dup", b[:i + 1] + [b[i]] + b[i + 1:], i + 1))
             break
-    else:
-        raise Machinery("binding self-test: no scenario with a dispatch")
-    # (c) a dispatch moved behind StopReturn
-    for b in good:
-        s = next((i for i, r in enumerate(b) if r["ev"] == "stopret"), None)
-        i = next((i for i, r in enumerate(b) if r["ev"] == "disp"), None)
-        if s is not None and i is not None and i < s:
-            b2 = b[:i] + b[i + 1:s + 1] + [b[i]] + b[s + 1:]
-            nacc, rej = validate(ctx, [b2], tag="self_late")
-            if not rej:
-                raise Machinery("binding self-test late: a dispatch after StopReturn was accepted")
+    for b in good:      # a dispatch moved behind StopReturn
+        s_ = first(b, lambda r: r["ev"] == "stopret")
+        i = first(b, lambda r: r["ev"] == "disp")
+        if s_ is not None and i is not None and i < s_:
+            jobs.append(("late", b[:i] + b[i + 1:s_ + 1] + [b[i]] + b[s_ + 1:], s_))
             break
-    # (d) Stop answered false
-    for b in good:
-        s = next((i for i, r in enumerate(b) if r["ev"] == "stopret"), None)
-        if s is not None:
+    for b in good:      # Stop answered false
+        s_ = first(b, lambda r: r["ev"] == "stopret")
+        if s_ is not None:
             b2 = [dict(r) for r in b]
-            b2[s]["ok"] = False
-            expect_reject("stopfalse", b2, s)
+            b2[s_]["ok"] = False
+            jobs.append(("stopfalse", b2, s_))
             break
-    # (e) a read timeout that came too early
-    for b in good:
-        i = next((i for i, r in enumerate(b) if r["ev"] == "rd" and r["err"] == "timeout"), None)
+    for b in good:      # a read timeout that came before the deadline of that Read
+        i = first(b, lambda r: r["ev"] == "rd" and r["err"] == "timeout")
         if i is not None:
             b2 = [dict(r) for r in b]
             b2[i]["blocked_us"] = b[0]["rt_us"] - 1000
-            expect_reject("earlytimeout", b2, i)
+            jobs.append(("earlytimeout", b2, i))
             break
-    else:
-        raise Machinery("binding self-test: no scenario with a read timeout")
-    ctx.cov["binding_selftests"] = "passed (drop, dup, late, stopfalse, earlytimeout)"
+    for b in good:      # a handler still running when Stop returns
+        s_ = first(b, lambda r: r["ev"] == "stopret")
+        i = first(b, lambda r: r["ev"] == "hret")
+        if s_ is not None and i is not None and i < s_:
+            jobs.append(("running", b[:i] + b[i + 1:], s_ - 1))
+            break
+    names = [j[0] for j in jobs]
+    if set(names) != {"drop", "dup", "late", "stopfalse", "earlytimeout", "running"}:
+        raise Machinery("binding self-test: the accepted scenarios do not offer every probe (%s)" % names)
+    if ctx.quick():
+        jobs = [j for j in jobs if j[0] in ("drop", "late", "stopfalse", "earlytimeout")]
+
+    def one(job):
+        name, b2, at = job
+        nacc, rej = validate(ctx, [b2], tag="self_" + name, own_dir="spec_self_" + name)
+        return name, (bool(rej) and rej[0][1] <= at)
+    with ThreadPoolExecutor(max_workers=4) as ex:
+        res = list(ex.map(one, jobs))
+    bad = [n for n, ok in res if not ok]
+    if bad:
+        raise Machinery("binding self-test: corrupted scenario(s) %s accepted by ListenerTrace (or rejected too late)" % bad)
+    ctx.cov["traces_validated_against_impl"] = ctx.cov["traces_validated_against_impl"]
+    ctx.cov["binding_selftests"] = "rejected as required: " + ", ".join(n for n, _ in res)
